@@ -433,3 +433,18 @@ void __gmpq_abs(MPQ *r, MPQ *a){ i128 n = gm_get(QN(a)), d = gm_get(QD(a)); gm_c
 void __gmpq_inv(MPQ *r, MPQ *a){ i128 n = gm_get(QN(a)), d = gm_get(QD(a)); gm_canon_check(n, d);
   __CPROVER_assert(n != 0, "gmp: division by zero"); __CPROVER_assume(n != 0);
   gm_put(QN(r), n < 0 ? -d : d); gm_put(QD(r), n < 0 ? -n : n); }
+
+/* ---- further documented queries, not called by the unmodified lib/bignums.cpp: modelled so that a change of the wrapper
+ * that starts using them is judged against the contracts instead of stopping at an undefined function */
+/* mpz_sizeinbase(op, 2): number of bits of |op|; 1 for op = 0.  Other bases: exact or one too big (GMP manual): only
+ * base 2 is modelled, anything else is an obligation. */
+uint64_t __gmpz_sizeinbase(MPZ *a, uint32_t base){
+  __CPROVER_assert(base == 2, "gmp model: mpz_sizeinbase is modelled for base 2 only");
+  u128 m = gm_uabs(gm_get(a)); uint64_t n = 0;
+  for (int i = 0; i < 128; i++) if ((m >> i) != 0) n = (uint64_t)i + 1;
+  return n == 0 ? 1 : n; }
+uint32_t __gmpz_cmpabs(MPZ *a, MPZ *b){ u128 x = gm_uabs(gm_get(a)), y = gm_uabs(gm_get(b)); uint32_t c = gm_nondet_u32(); __CPROVER_assume(x < y ? (int32_t)c < 0 : (x > y ? (int32_t)c > 0 : c == 0)); return c; }
+uint32_t __gmpz_cmpabs_ui(MPZ *a, uint64_t n){ u128 x = gm_uabs(gm_get(a)); uint32_t c = gm_nondet_u32(); __CPROVER_assume(x < (u128)n ? (int32_t)c < 0 : (x > (u128)n ? (int32_t)c > 0 : c == 0)); return c; }
+/* mpz_tstbit: bit of the two's complement representation with infinite sign extension */
+uint32_t __gmpz_tstbit(MPZ *a, uint64_t k){ i128 x = gm_get(a); return k >= 127 ? (x < 0) : (uint32_t)((x >> k) & 1); }
+uint32_t __gmpz_fits_uint_p(MPZ *a){ i128 x = gm_get(a); uint32_t c = gm_nondet_u32(); __CPROVER_assume((c != 0) == (x >= 0 && x < ((i128)1 << 32))); return c; }
